@@ -27,6 +27,8 @@ def regs30(rng, pc=None, t=None, frame=69888, iff=None):
             t = rng.randrange(frame)
         else:
             t = rng.randrange(frame) + frame * rng.choice([1, 2, 50, 240])
+        if rng.random() < 0.04:
+            t += rng.choice([1 << 32, 1 << 33, (1 << 32) - frame])      # the clock is a 64-bit counter
     r[25] = t
     r[26] = rng.randrange(2) if iff is None else iff
     r[27] = rng.choice([0, 1, 1, 2])
